@@ -122,6 +122,7 @@ QUALIFIED = {
     "operator.mul": "fresh", "operator.add": "fresh",
     "multiprocessing.pool.ThreadPool": "fresh",
     "dict.__init__": "storec",
+    "dict.fromkeys": "freshc",               # a new dict whose keys are the elements of the iterable (values None)
     # catii's own Cython kernels (C08/C09 own their semantics): results are new arrays, except that
     # the two-argument wrappers may hand back one of their arguments
     "set_operations.set_intersect_merge_np": "fresh",
